@@ -175,7 +175,7 @@ NEEDS_DONOR = ("same_net", "const_net", "sep2d", "const_donor")
 def gen_case(rng, idx, rep, stream, z=None, force_donor=False, structure="indep"):
     z = z or rng.choice([1, 1, 2, 2, 3, 4, 5, 6, 6, 7, 8, 9, 10, 10, 11, 12, 13, 14, 15, 16, 17, 18, 18])
     realistic = rng.random() < 0.7
-    donor_mode = rng.choice(["none"] * 3 + ["donor"] * 8 + ["donor_zero", "donor_nodens"])
+    donor_mode = rng.choice(["none"] * 3 + ["donor"] * 6 + ["donor_zero"] * 2 + ["donor_nodens"] * 2)
     if rep in ("scalar", "fun1d_scalar"):
         structure = "indep"
     if structure == "sep2d" and rep not in ("array2d", "fun2d", "interp2d"):
